@@ -438,6 +438,7 @@ def _r4_symbolic(b, I, N, idparam):
 
 def r4(ctx, facts):
     r4_writers(ctx, facts)
+    r4_clone(ctx, facts)
     impls = [b for b in facts.bodies if b.trait_item == ALLOC and b.impl]
     ctx.floor("C15-R4", "MarkerAllocator::allocate impls", len(impls), 1)
     for b in impls:
@@ -572,3 +573,42 @@ def r4_writers(ctx, facts):
             ctx.ob("C15-R4", "%s writes the marker allocator's state" % b.path, "undetermined", b.loc(),
                    "a further writer of the marker counter / mapping; not decided whether `counter > every id handed out` and `counter never decreases` "
                    "survive its own arithmetic: " + "; ".join(sites[:4]))
+
+
+def r4_clone(ctx, facts):
+    """A copy of a marker allocator carries the whole id state.  `Clone::clone` of every type that implements MarkerAllocator must build its
+    result field by field from the same field of `self` (a copy, or that field's own `Clone::clone`); phantom / zero-sized markers aside.  A clone
+    that keeps the counter but starts with an empty mapping (seed C15-g2: "handles are world-specific, maintain rebuilds it") makes a restored
+    allocator treat every known marker as unknown: loading creates a second live entity with an id a live entity already holds."""
+    allocs = sorted({base_ty(i["self_ty"]) for i in facts.impls if i.get("trait") == "saveload::marker::MarkerAllocator"})
+    n = 0
+    for a in allocs:
+        adt = facts.adts.get(a)
+        if not adt:
+            continue
+        fields = adt["variants"][0]["fields"]
+        for b in facts.bodies:
+            if b.trait_item != "std::clone::Clone::clone" or base_ty(b.self_ty or "") != a:
+                continue
+            n += 1
+            aggs = [d for d in b.defs().get(0, []) if d[0] == "stmt" and d[4]["k"] == "aggregate" and d[4].get("adt") == a]
+            if not aggs:
+                ctx.ob("C15-R4", "%s copies every state field" % b.path, "undetermined", b.loc(), "the clone does not build its result as one aggregate; not followed")
+                continue
+            bad = []
+            for d in aggs:
+                for k, f in enumerate(fields):
+                    if "PhantomData" in f["ty"] or k >= len(d[4]["ops"]):
+                        continue
+                    o = b.operand_origin(d[4]["ops"][k], at=(d[1], d[2])) if len(d) > 2 else b.operand_origin(d[4]["ops"][k])
+                    ok = o[:2] == ("param", 1) and tuple(o[2][:1]) == (f["name"],)
+                    if not ok and o[0] == "call":
+                        c = b.term(o[1])["callee"]
+                        ao = b.arg_origin(o[1], 0) if b.term(o[1])["args"] else None
+                        ok = c.get("path") == "std::clone::Clone::clone" and ao and ao[:2] == ("param", 1) and tuple(ao[2][:1]) == (f["name"],)
+                    if not ok:
+                        bad.append("field `%s` comes from %r, not from self.%s" % (f["name"], o[:2], f["name"]))
+            ctx.ob("C15-R4", "%s copies every state field" % b.path, not bad, b.loc(),
+                   "" if not bad else "a cloned marker allocator does not carry the original's id state: " + "; ".join(bad) +
+                   " - ids already handed out are unknown to the copy, so loading or marking through it duplicates live marker ids")
+    ctx.floor("C15-R4", "Clone impls of marker allocators", n, 1)
